@@ -260,7 +260,7 @@ HARNESSES = {
                   "clauses": ["C04.g", "C04.h", "C04.h-interest"], "witness_every": 3},
     "history": {"make": history, "split": True, "witness_every": 11,
                 "jobs": lambda tier: ([{"k": 2, "ops": ["consume", "convert", "enter_dormancy", "exit_dormancy"]}] if tier == "quick" else
-                                      [{"k": 2, "ops": ["consume", "regenerate", "convert", "enter_dormancy", "exit_dormancy"]}, {"k": 3, "ops": ["consume", "convert"]}]),
+                                      [{"k": 2, "ops": ["consume", "regenerate", "convert", "enter_dormancy", "exit_dormancy"]}]),
                 "clauses": ["C04.bound", "C04.c"]},
 }
 
@@ -274,7 +274,7 @@ META = {
     "bounds": {
         "quick": {"step harnesses": "one call from ANY state with 0<=balances<=2^21, 0<=capacities,max_debt<=2^20, 0<=debt<=2^22, all 5 metabolic states, all 3 currencies, allow_debt both, priority 0..10; no history bound (inductive)",
                   "history": "k=2 calls from the constructor"},
-        "thorough": {"step harnesses": "as quick", "history": "k=2 calls from the constructor over all five operations incl. regenerate; k=3 over {consume, convert} (k=3 over four operations exceeds 5 minutes on 16 cores: outside)"},
+        "thorough": {"step harnesses": "as quick", "history": "k=2 calls from the constructor over all five operations incl. regenerate (k=3 takes more than 15 minutes on 16 cores even over two operations: outside; the step harnesses cover every reachable state inductively)"},
     },
     "outside": ["integer magnitudes above 2^22", "negative or non-integer amounts", "background regeneration thread (rate 0)",
                 "on_state_change callbacks", "IEEE rounding inside _update_state (its result, the metabolic state, is re-quantified over all 5 states in every step: argument F-indep)"],
